@@ -52,6 +52,8 @@ structure ChildSpec where
   floods : Bool := false
   stdoutOpen : Bool := true
   stdinOpen : Bool := true
+  /-- it ends on its own `d` ms after the exit began (`none`: never, a real server) -/
+  selfExit : Option Nat := none
   deriving DecidableEq, Repr
 
 /-- Operating-system facts (hypotheses of the theorems). -/
@@ -101,6 +103,80 @@ def exit (shielded : Bool) (os : OS) (p : ExitPath) (c : ChildSpec) : Trace :=
   else if p.cancelled && !shielded then { signals := [], duration := 0, child := .running }
   else terminateProcess os c
 
+/-! ## The whole exit: what happens BEFORE the reader/writer tasks are cancelled
+
+`exit` above starts at the cancellation of the task group.  A client may do something first —
+e.g. let the stdin writer flush what is still queued.  Such a step is a design decision like
+`shielded`; whether it is bounded decides whether the exit is. -/
+
+/-- design decisions of the client on which the property hinges -/
+structure Design where
+  /-- the termination sequence runs in a cancellation-shielded scope -/
+  shielded : Bool
+  /-- before cancelling its tasks the exit waits for the stdin writer to drain its queue:
+  `some w`: for at most `w` ms (`some 0`: it does not wait), `none`: without bound -/
+  flushWait : Option Nat
+  /-- `__aenter__` contains a cancellable await between the spawn and the point from which the
+  child is owned (its clean-up guaranteed) -/
+  entryGap : Bool
+  deriving DecidableEq, Repr
+
+/-- the design the property asks for (and the model used by the correspondence run) -/
+def Design.sound : Design := { shielded := true, flushWait := some 0, entryGap := false }
+
+/-- outgoing traffic at the moment the exit begins -/
+structure Load where
+  /-- bytes queued for the child and not yet written -/
+  backlog : Nat
+  /-- bytes the pipe and the transport's write buffer take without the child reading -/
+  capacity : Nat
+  deriving DecidableEq, Repr
+
+/-- the stdin writer cannot finish: the child does not read and more is queued than fits -/
+def writerBlocked (c : ChildSpec) (l : Load) : Bool :=
+  !c.reads && c.stdinOpen && decide (l.capacity < l.backlog)
+
+/-- how long the exit waits for the writer before it cancels the tasks; `none`: forever.
+On a cancelled path the wait itself is cancelled at once. -/
+def flushPhase (d : Design) (p : ExitPath) (c : ChildSpec) (l : Load) : Option Nat :=
+  if p.cancelled || !writerBlocked c l then some 0
+  else match d.flushWait, c.selfExit with
+    | some w, some s => some (min w s)
+    | some w, none => some w
+    | none, some s => some s        -- only the child's own death releases the writer
+    | none, none => none
+
+/-- Leaving the context, everything included.  `none`: `__aexit__` never returns. -/
+def leave (d : Design) (os : OS) (p : ExitPath) (c : ChildSpec) (l : Load) : Option Trace :=
+  match flushPhase d p c l with
+  | none => none
+  | some f =>
+    let died := match c.selfExit with | some s => decide (s ≤ f) | none => false
+    let t := exit d.shielded os p { c with exited := c.exited || died }
+    some { signals := t.signals.map (fun x => (f + x.1, x.2)), duration := f + t.duration, child := t.child }
+
+/-! ## Cancellation while the context is being entered -/
+
+/-- where, relative to `__aenter__`, the cancellation of the enclosing scope is delivered -/
+inductive CancelPoint where
+  | beforeSpawn | duringSpawn | afterSpawn | inBody
+  deriving DecidableEq, Repr
+
+/-- what is left of the child when entering was cut short -/
+inductive Leftover where
+  | noChild | reaped | running
+  deriving DecidableEq, Repr
+
+/-- `some x`: entering was cancelled at that point and `x` is what remains; `none`: the point is
+not a checkpoint of `__aenter__` (or lies in the body) — the context is entered and is left by
+`leave` on a cancelled path.  A cancellation during the spawn itself is cleaned up by the event
+loop's subprocess machinery (a runtime fact). -/
+def cancelledEntry (d : Design) : CancelPoint → Option Leftover
+  | .beforeSpawn => some .noChild
+  | .duringSpawn => some .reaped
+  | .afterSpawn => if d.entryGap then some .running else none
+  | .inBody => none
+
 /-! ## Entering -/
 
 /-- what `anyio.open_process` did with the command (an OS fact) -/
@@ -138,7 +214,7 @@ def pending {α : Type} (written : List (Nat × α)) (i : Nat) : ReqOutcome α :
 /-! ## The behaviours of the property's quantifier (used by the correspondence run) -/
 
 inductive Behaviour where
-  | well | exitAt (k : Nat) | ignoreTerm | neverReads | flood | closeStdout | closeStdin | slowStart
+  | well | exitAt (k : Nat) | ignoreTerm | neverReads | stopsReading | flood | closeStdout | closeStdin | slowStart
   deriving DecidableEq, Repr
 
 inductive Moment where
@@ -156,7 +232,7 @@ def childSpec (b : Behaviour) (m : Moment) : ChildSpec :=
   { exited := (match b with | .exitAt k => decide (k ≤ stepsDone m) | _ => false),
     termDelay := (match b with | .ignoreTerm => none | _ => some 0),
     eofDelay := (match b with | .well | .slowStart | .closeStdout | .exitAt _ => some 0 | _ => none),
-    reads := (match b with | .neverReads | .flood | .closeStdin => false | _ => true),
+    reads := (match b with | .neverReads | .stopsReading | .flood | .closeStdin => false | _ => true),
     floods := (match b with | .flood => true | _ => false),
     stdoutOpen := (match b with | .closeStdout => false | _ => true),
     stdinOpen := (match b with | .closeStdin => false | _ => true) }
@@ -166,6 +242,7 @@ def answers (b : Behaviour) (j : Nat) : Bool :=
   match b with
   | .well | .ignoreTerm | .slowStart => true
   | .exitAt k => decide (2 * j ≤ k)
+  | .stopsReading => decide (j = 1)
   | _ => false
 
 end Verif.Model.Shutdown
